@@ -263,6 +263,9 @@ class Calibrator:
           subgraph.tensors, self._flatbuffer_model.buffers
       )
       for subgraph_op_id, op in enumerate(subgraph.operators):
+        if isinstance(op, qtyping.IOOperator):
+          # Virtual input/output operator left by an earlier calibrate() call.
+          continue
         op_code = op_codes[op.opcodeIndex].builtinCode
         if op_code not in tfl_flatbuffer_utils.TFL_OP_CODE_TO_NAME:
           continue
